@@ -87,6 +87,10 @@ structure Req where
   nframe : Nat := 0
   rows : Array (List Tok) := #[]
   nstates : Nat := 0
+  tpx : Array (Array Int) := #[]
+  sen : Array (Array Int) := #[]
+  mfinal : Option Tok := none
+  mrows : Array (List Tok) := #[]
   bad : List String := []
 
 def denseRow (n : Nat) (cells : List (Nat × Tok)) : List Tok :=
@@ -171,7 +175,23 @@ def Req.feed (r : Req) (ws : List String) : Req :=
     match cells.mapM parseCell with
     | some cs => { r with rows := r.rows.push (denseRow r.nstates cs) }
     | none => err "TOK"
-  | _ => r   -- SEN / MTOK / MFINAL lines are handled by the `step` mode (growth), ignored here
+  | "TPX" :: _i :: v =>
+    match intsOf v with
+    | some v => { r with tpx := r.tpx.push v.toArray }
+    | none => err "TPX"
+  | "SEN" :: _f :: v =>
+    match intsOf v with
+    | some v => { r with sen := r.sen.push v.toArray }
+    | none => err "SEN"
+  | ["MFINAL", id, sc, _nf] =>
+    match parseInt id, parseInt sc with
+    | some id, some sc => { r with mfinal := some ⟨id, sc⟩ }
+    | _, _ => err "MFINAL"
+  | "MTOK" :: _f :: cells =>
+    match cells.mapM parseCell with
+    | some cs => { r with mrows := r.mrows.push (denseRow r.nstates cs) }
+    | none => err "MTOK"
+  | _ => r
 
 def getI (a : Array Int) (i : Int) : Int := if i < 0 then -1 else a.getD i.toNat (-1)
 
@@ -281,9 +301,26 @@ def process (m : Mdl) (r : Req) (out : IO.FS.Stream) : IO Unit := do
     let S := r.nstates
     let wf := wfTokens r.rows.toList win r.nframe S r.final
     let tms := (r.cP.toList.map (·.tmatid)).eraseDups
-    let noskip := tms.all fun t => t ≥ 0 && noSkipB ne (m.tp.getD t.toNat #[])
+    let tpTab := if r.tpx.isEmpty then m.tp else r.tpx
+    let noskip := tms.all fun t => t ≥ 0 && noSkipB ne (tpTab.getD t.toNat #[])
     let b (x : Bool) : String := if x then "1" else "0"
     out.putStrLn s!"HYP wf={b wf} noskip={b noskip} nframe={r.nframe} nstates={S}"
+  -- the constrained Viterbi step model on the senone scores the hand-stepped second pass saw
+  match r.mfinal with
+  | none => pure ()
+  | some mf =>
+    if m.nEmit != 3 then out.putStrLn "STEP na=1" else
+    let tpTab := if r.tpx.isEmpty then m.tp else r.tpx
+    let tps : Array (Array Int) := r.cP.map fun e => if e.tmatid < 0 then #[] else tpTab.getD e.tmatid.toNat #[]
+    let (rows, fin, renorm) := SSVerif.Align.Step.run tps r.sf.toArray r.ef.toArray r.sen.toList
+    -- hypotheses of C04_alignStep_tokens_local_partial on the dumped data: value ranges, no renormalisation
+    let ranges := r.sen.all (fun row => row.all fun v => 0 ≤ v && v ≤ 32767)
+        && tps.all (fun tp => tp.all fun v => 0 ≤ v && v ≤ 255)
+    let same := rows == r.mrows.toList && fin == mf
+    let firstDiff := ((List.range rows.length).find? fun f => rows[f]? != r.mrows.toList[f]?).getD rows.length
+    let asDec := r.mrows == r.rows && mf == r.final
+    let b (x : Bool) : String := if x then "1" else "0"
+    out.putStrLn s!"STEP eq={b same} frames={rows.length} firstdiff={firstDiff} manual_eq_decoder={b asDec} ranges={b ranges} renorm={b renorm}"
   if !r.bad.isEmpty then out.putStrLn ("BAD " ++ " ".intercalate r.bad)
   out.putStrLn "ENDREQ"
 
